@@ -31,12 +31,12 @@ RULE = ("cases: fitter configurations (grid, law, A_V range, format/memmap/filte
         "fits with condition number <= 1e4")
 ASSUMPTIONS = ["finite value alphabets for real-valued inputs (see DESIGN.md section 0)",
                "condition number of the regression <= 1e4", "limits closer than 1e-9 dex to the fitted model are ambiguous"]
-REQUIRED_CLASSES = ['band-on-last-node-of-law', 'gzipped-convolved-files', 'law-in-other-unit', 'two-limits-different-confidence', 'av-interior', 'av-clamped-lo', 'av-clamped-hi', 'av-pinned', 'no-limit', 'limit-satisfied', 'limit-violated',
+REQUIRED_CLASSES = ['integer-typed-photometry', 'convolved-files-in-Jy', 'band-on-last-node-of-law', 'gzipped-convolved-files', 'law-in-other-unit', 'two-limits-different-confidence', 'av-interior', 'av-clamped-lo', 'av-clamped-hi', 'av-pinned', 'no-limit', 'limit-satisfied', 'limit-violated',
                     'limit-violated-conf1', 'k0-band-fitted', 'duplicate-model-tied', 'float32-path', 'flag4-fitted', 'negative-range']
 TIMEOUT = {'quick': 300, 'thorough': 1800}
 
 RANGES = [(0.0, 40.0), (0.0, 0.0), (2.5, 2.5), (5.0, 7.0), (-3.0, -1.0), (0.0, 1.0)]
-VARIANTS = [('v1', False, False), ('v2', True, False), ('v2', False, False), ('v2', True, True), ('v1gz', False, False)]   # fmt (gz: gzipped convolved files), memmap, filters given as wavelengths
+VARIANTS = [('v1', False, False), ('v2', True, False), ('v2', False, False), ('v2', True, True), ('v1gz', False, False), ('v1Jy', False, False)]   # fmt (gz: gzipped convolved files), memmap, filters given as wavelengths
 BANDSETS = {2: ['B1', 'B3'], 3: ['B1', 'B3', 'B5'], 4: ['B1', 'B2', 'B4', 'B5'], 5: ['B1', 'B2', 'B3', 'B4', 'B5']}
 
 
@@ -47,7 +47,7 @@ def setup(tier, seed):
     for g, law, ir, iv, n in itertools.product(grids, ['power', 'three', 'nonmono', 'nonmono@nm', 'edge'], range(len(RANGES)), range(len(VARIANTS)), ns):
         if tier == 'quick' and n == 2 and (iv != 0 or g != 0):
             continue
-        if iv == 4 and (g != 0 or n != 3 or law not in ('power', 'three')):
+        if iv in (4, 5) and (g != 0 or n != 3 or law not in ('power', 'three')):
             continue
         if law == 'edge' and (iv not in (0, 2) or g != 0 or n == 2):
             continue
@@ -83,9 +83,11 @@ def run_case(ctx, case, rec, d):
     flux_all = fc.grid2d(seed * 10 + case['grid'], n_models=6, law=law, bands=fc.ALL_BANDS, special=True)
     cols = [fc.ALL_BANDS.index(b) for b in bands]
     names = fc.names_for(6)
-    spec = {'fmt': fmt.replace('gz', ''), 'names': names, 'bands': fc.ALL_BANDS, 'flux': flux_all, 'flat_single': (case['grid'] % 2 == 0), 'gz': fmt.endswith('gz')}
+    spec = {'fmt': fmt.replace('gz', '').replace('Jy', ''), 'conv_unit': 'Jy' if fmt.endswith('Jy') else 'mJy', 'names': names, 'bands': fc.ALL_BANDS, 'flux': flux_all, 'flat_single': (case['grid'] % 2 == 0), 'gz': fmt.endswith('gz')}
     if fmt.endswith('gz'):
         rec.cls('gzipped-convolved-files')
+    if fmt.endswith('Jy'):
+        rec.cls('convolved-files-in-Jy')
     md = fc.build_package(d, 'pkg', spec)
     fitter = fc.make_fitter(md, bands, law, (avlo, avhi), memmap=memmap, by_wavelength=bywav)
     f32 = fc.observed_f32(fitter)
@@ -114,8 +116,15 @@ def run_case(ctx, case, rec, d):
                 for j in fitted:
                     if fv[j] == 1:
                         fl[j] *= jit[j]
-            src = fc.make_source(fv, fl, er)
-            before = (src.valid.copy(), src.flux.copy(), src.error.copy())
+            as_int = False
+            if ps == 1 and 4 not in fv:
+                # whole-number photometry (mJy x 1000, say), handed over as python ints; limits then carry confidence 0 or 1
+                fl = np.maximum(np.round(fl * 1000.0), 1.0)
+                er = np.array([float(int(round(e))) if v in (2, 3) else max(round(e * 1000.0), 1.0) for v, e in zip(fv, er)])
+                if all(abs(x) < 2 ** 53 for x in fl):
+                    as_int = True
+                    rec.cls('integer-typed-photometry')
+            src = fc.make_source(fv, fl, er, as_int=as_int)
             info = fitter.fit(src)
             rec.trans()
             probs, st = fc.judge_2d(info, (list(fv), fl, er), names, logm, k, avlo, avhi, f32=f32)
